@@ -4,6 +4,7 @@
   vector keeps the prefix before the affected index and nothing else happens.
 -/
 import AnyVecModel.Proofs.Exec
+import AnyVecModel.Props.Hist
 namespace AnyVec
 namespace C07
 open World
@@ -83,6 +84,25 @@ example : (step { size := 8, align := 8, hasDrop := true } (.remove 0 1 .forget)
   decide
 example : (step { size := 8, align := 8, hasDrop := true } (.drain 0 (.incl 1) .unb false [] .forget) sampleWorld).1.vis 0
     = [.val 10] := by decide
+
+/-! ### over whole histories -/
+
+/-- **history theorem**: forgetting the handle of `pop` / `remove(i)` / `swap_remove(i)` (the `forget`
+sink is a core step) keeps the world invariant, whatever was done before and whatever is done after. -/
+theorem history_forget_handle_core (cfg : Cfg) (w : World) (hr : Hist.Reach cfg w) (v i : Nat)
+    (hv : Hist.liveVec w.vecs v) :
+    (runStep cfg (.remove v i .forget) none w).1.Inv ∧ (runStep cfg (.swapRemove v i .forget) none w).1.Inv ∧
+      (runStep cfg (.pop v .forget) none w).1.Inv :=
+  ⟨(Hist.runStep_inv cfg (.remove v i .forget) none w (Hist.reach_inv_core cfg w hr) (Or.inl trivial) ⟨hv, fun _ hm => hm.elim⟩).1,
+   (Hist.runStep_inv cfg (.swapRemove v i .forget) none w (Hist.reach_inv_core cfg w hr) (Or.inl trivial) ⟨hv, fun _ hm => hm.elim⟩).1,
+   (Hist.runStep_inv cfg (.pop v .forget) none w (Hist.reach_inv_core cfg w hr) (Or.inl trivial) ⟨hv, fun _ hm => hm.elim⟩).1⟩
+
+/-- **history theorem**: forgetting a `Drain` at any stage of consumption (after any pattern of
+`next`/`next_back`, items dropped, forgotten, downcast) keeps the world invariant. -/
+theorem history_forget_drain_core (cfg : Cfg) (w : World) (hr : Hist.Reach cfg w) (v : Nat) (lo hi : Bnd)
+    (typed : Bool) (eats : List (End × Sink)) (hv : Hist.liveVec w.vecs v) (hc : ∀ p ∈ eats, p.2.Core) :
+    (runStep cfg (.drain v lo hi typed eats .forget) none w).1.Inv :=
+  (Hist.runStep_inv cfg (.drain v lo hi typed eats .forget) none w (Hist.reach_inv_core cfg w hr) hc hv).1
 
 end C07
 end AnyVec
